@@ -40,6 +40,16 @@ theorem finite_of_not_inf_nan (h : Nat) (hi : isInfinity h = false) (hn : isNan 
     simpa using this
   · cases h2 : (mantissa h == 0) <;> simp_all
 
+/-- the private accessors as arithmetic: `exponent()` is bits 10-14, `mantissa()` bits 0-9 -/
+theorem exponent_eq (x : Nat) : exponent x = x / 1024 % 32 := by
+  unfold exponent
+  rw [Nat.shiftRight_eq_div_pow]
+  exact Nat.and_two_pow_sub_one_eq_mod (x / 2 ^ 10) 5
+
+theorem mantissa_eq (x : Nat) : mantissa x = x % 1024 := by
+  unfold mantissa
+  exact Nat.and_two_pow_sub_one_eq_mod x 10
+
 end ImathVerif.Half
 
 namespace ImathVerif.HalfFunction
